@@ -163,3 +163,20 @@ package orderedmap
 //@   ensures  wf: wf(orderedMap)
 //@   loop 0:
 //@     invariant wf: wf(orderedMap)
+//
+// FromMap builds a NEW ordered map: the result and its records are fresh memory (in particular the
+// records are not the caller's map, so later Set / Remove on the result - or on a second ordered map made
+// from the same native map - cannot reach it), the result is well formed, every value it holds is the source's value for that key, and
+// the source map is not written.
+//@ func FromMap
+//@   property C19
+//@   modifies nothing
+//@   ensures  own: result != nil && fresh(result) && result.records != nil && fresh(result.records)
+//@   ensures  wf: wf(result)
+//@   ensures  values: forall k: K :: result.records.has(k) ==> result.records[k] == original[k]
+//@   loop 0:
+//@     invariant keys: base(keys) == 0 || fresh(keys)
+//@   loop 1:
+//@     invariant own: orderedMap != nil && fresh(orderedMap) && orderedMap.records != nil && fresh(orderedMap.records) && (orderedMap.order == nil || fresh(orderedMap.order))
+//@     invariant wf: wf(orderedMap)
+//@     invariant values: forall k: K :: orderedMap.records.has(k) ==> orderedMap.records[k] == original[k]
